@@ -101,6 +101,9 @@ def _helpers():
         return getattr(recv, name)(*args, **kw)
 
     def sym_in(a, b):
+        if isinstance(a, V.SymEnum) and (isinstance(b, (set, frozenset)) or type(b) is dict):
+            # hash-based containers hash the member first: an unhashable candidate value raises TypeError in real Python
+            return a.get() in b
         if V.is_symbolic(a):
             if isinstance(b, (set, frozenset, list, tuple, deque)) or type(b) is dict:
                 if not b:
@@ -127,6 +130,8 @@ def _helpers():
         return fmt % arg
 
     def sym_getitem(obj, key):
+        if isinstance(key, V.SymEnum) and type(obj) is dict:
+            return obj[key.get()]
         if V.is_symbolic(key) and type(obj) is dict:
             for k in obj:
                 if key == k:
